@@ -295,6 +295,20 @@ fn ppoprf_receivers(ctx: &mut Ctx) -> Result<(), Violation> {
             pks.push(pk);
         }
     }
+    // ServerPublicKey is publicly Deserialize: a key can also arrive through plain serde (bincode
+    // without the size check, or JSON inside an application message)
+    for b in &pk_variants {
+        let r = rx!(ctx, "bincode->ServerPublicKey", b, bincode::deserialize::<pp::ServerPublicKey>(b).ok());
+        if let Some(pk) = r {
+            if let Ok(js) = serde_json::to_vec(&pk) {
+                let r2 = rx!(ctx, "serde_json->ServerPublicKey", &js, serde_json::from_slice::<pp::ServerPublicKey>(&js).ok());
+                if let Some(pk2) = r2 {
+                    pks.push(pk2);
+                }
+            }
+            pks.push(pk);
+        }
+    }
     ctx.stats.probe_n("pk_variants_accepted", pks.len() as u64);
 
     // --- proofs
